@@ -158,6 +158,9 @@ type AdmitRequest struct {
 	Old       map[string]any
 	New       map[string]any
 	Options   any
+	// Collection: the request is one element of a deletecollection request (DeleteAllOf): the API
+	// server runs admission once per object with oldObject set and an empty request name
+	Collection bool
 }
 
 // AdmitFunc rejects a request by returning an error (it is returned to the caller as is).
